@@ -568,6 +568,9 @@ func c03Defects() []spDefect {
 			c.ap.caddr = []types.HostAddress{{AddrType: 20, Address: []byte("WORKSTATION     ")}}
 		}},
 		{"ap-crealm-partner", func(c *spCase, r *RNG) { c.ap.crealm = "PARTNER.EXAMPLE" }},
+		{"ap-cname-trailing-space", func(c *spCase, r *RNG) { c.ap.cname = []string{"testuser1", "root "} }},
+		{"ap-cname-leading-tab", func(c *spCase, r *RNG) { c.ap.cname = []string{"\ttestuser1"} }},
+		{"ap-crealm-trailing-space", func(c *spCase, r *RNG) { c.ap.crealm = "TEST.GOKRB5 " }},
 		{"ap-renewable-expired", func(c *spCase, r *RNG) { c.ap.renewable = true; c.ap.endOff = -time.Hour }},
 		{"ap-reqhost", func(c *spCase, r *RNG) { c.ap.reqHost = true }},
 		{"ap-clientaddr-configured", func(c *spCase, r *RNG) { c.ap.clientAddr = &v4b }},
